@@ -152,6 +152,9 @@ pub struct TokDe {
     pub pending_val: Option<u64>,
     /// report an error instead of delivering this entry
     pub fail_at: Option<u16>,
+    /// the access was polled until it answered `None`: a marker-terminated format (one that gives no
+    /// size hint) consumes its end marker only then, and finds trailing data otherwise
+    pub polled_end: bool,
 }
 
 impl<'de> serde::Deserializer<'de> for &mut TokDe {
@@ -178,6 +181,7 @@ impl<'de> MapAccess<'de> for &mut TokDe {
             return Err(TErr("injected transport error".into()));
         }
         if self.pos >= self.entries.len() {
+            self.polled_end = true;
             return Ok(None);
         }
         let (k, v) = self.entries[self.pos];
@@ -203,6 +207,7 @@ impl<'de> SeqAccess<'de> for &mut TokDe {
             return Err(TErr("injected transport error".into()));
         }
         if self.pos >= self.entries.len() {
+            self.polled_end = true;
             return Ok(None);
         }
         let (k, _) = self.entries[self.pos];
@@ -452,7 +457,7 @@ pub fn map_roundtrip<K: SimK, V: SimV, const C1: usize, const C2: usize>(m: &Map
             let mut ser = TokSer { log: Vec::new(), fail_at: None };
             if m.serialize(&mut ser).is_ok() {
                 if let Some(ents) = account("Map::serialize", &ser.log, pre, m.len(), true, K::ANON, V::ANON) {
-                    let mut de = TokDe { hint: hint_of(cfg.hint % 3, ents.len()), entries: ents, pos: 0, pending_val: None, fail_at: None };
+                    let mut de = TokDe { hint: hint_of(cfg.hint % 3, ents.len()), entries: ents, pos: 0, pending_val: None, fail_at: None, polled_end: false };
                     let r = catch_unwind(AssertUnwindSafe(|| Map::<K, V, C2>::deserialize(&mut de)));
                     match r {
                         Ok(Ok(d)) => {
@@ -563,7 +568,7 @@ pub fn map_roundtrip<K: SimK, V: SimV, const C1: usize, const C2: usize>(m: &Map
                 cx.probe("serde_entry_duplicated");
             }
         }
-        let mut de = TokDe { hint: hint_of(cfg.hint, ents.len()), entries: ents, pos: 0, pending_val: None, fail_at: cfg.de_fail_at };
+        let mut de = TokDe { hint: hint_of(cfg.hint, ents.len()), entries: ents, pos: 0, pending_val: None, fail_at: cfg.de_fail_at, polled_end: false };
         let r = if cfg.in_place {
             // the target already holds entries (some with keys the source lacks): they must be gone afterwards
             cx.probe("serde_deserialize_in_place");
@@ -579,6 +584,13 @@ pub fn map_roundtrip<K: SimK, V: SimV, const C1: usize, const C2: usize>(m: &Map
             catch_unwind(AssertUnwindSafe(|| Map::<K, V, C2>::deserialize(&mut de)))
         };
         decoded = match r {
+            // a transport that gave no size hint is marker-terminated: a visitor that returns without having
+            // polled it to the end leaves the marker unread, and the transport reports trailing data
+            Ok(Ok(d)) if de.hint.is_none() && !de.polled_end => {
+                cx.probe("serde_end_marker_left_unread");
+                drop(d);
+                Err("the visitor returned without polling the hint-less transport to its end: the end marker is left unread (trailing data)".into())
+            }
             Ok(Ok(d)) => Ok(d),
             Ok(Err(e)) => Err(format!("deserialize error: {e}")),
             Err(p) => {
@@ -624,7 +636,7 @@ pub fn set_roundtrip<K: SimK, V: SimV, const C1: usize, const C2: usize>(s: &Set
             let mut ser = TokSer { log: Vec::new(), fail_at: None };
             if s.serialize(&mut ser).is_ok() {
                 if let Some(ents) = account("Set::serialize", &ser.log, pre, s.len(), false, K::ANON, true) {
-                    let mut de = TokDe { hint: hint_of(cfg.hint % 3, ents.len()), entries: ents, pos: 0, pending_val: None, fail_at: None };
+                    let mut de = TokDe { hint: hint_of(cfg.hint % 3, ents.len()), entries: ents, pos: 0, pending_val: None, fail_at: None, polled_end: false };
                     let r = catch_unwind(AssertUnwindSafe(|| Set::<K, C2>::deserialize(&mut de)));
                     match r {
                         Ok(Ok(d)) => {
@@ -725,7 +737,7 @@ pub fn set_roundtrip<K: SimK, V: SimV, const C1: usize, const C2: usize>(s: &Set
                 cx.probe("serde_entry_duplicated");
             }
         }
-        let mut de = TokDe { hint: hint_of(cfg.hint, ents.len()), entries: ents, pos: 0, pending_val: None, fail_at: cfg.de_fail_at };
+        let mut de = TokDe { hint: hint_of(cfg.hint, ents.len()), entries: ents, pos: 0, pending_val: None, fail_at: cfg.de_fail_at, polled_end: false };
         let r = if cfg.in_place {
             cx.probe("serde_deserialize_in_place");
             let mut target: Set<K, C2> = Set::new();
@@ -740,6 +752,13 @@ pub fn set_roundtrip<K: SimK, V: SimV, const C1: usize, const C2: usize>(s: &Set
             catch_unwind(AssertUnwindSafe(|| Set::<K, C2>::deserialize(&mut de)))
         };
         decoded = match r {
+            // a transport that gave no size hint is marker-terminated: a visitor that returns without having
+            // polled it to the end leaves the marker unread, and the transport reports trailing data
+            Ok(Ok(d)) if de.hint.is_none() && !de.polled_end => {
+                cx.probe("serde_end_marker_left_unread");
+                drop(d);
+                Err("the visitor returned without polling the hint-less transport to its end: the end marker is left unread (trailing data)".into())
+            }
             Ok(Ok(d)) => Ok(d),
             Ok(Err(e)) => Err(format!("deserialize error: {e}")),
             Err(p) => {
